@@ -163,6 +163,17 @@ func callIntrinsic(fr *frame, fn *ssa.Function, args []value) value {
 	case "vsymStr":
 		// vsymStr(b []byte) string : reinterpretation without copy semantics concerns
 		return mkStr(append([]value{}, args[0].([]value)...))
+	case "vsymSameFloat":
+		// bit-for-bit "same number": equal, or both NaN; identical terms are
+		// the same without asking the solver
+		a, b := args[0], args[1]
+		if sa, ok := a.(sym); ok {
+			if sb, ok := b.(sym); ok && sa.t == sb.t {
+				return true
+			}
+		}
+		ta, tb := x.lift(a), x.lift(b)
+		return x.lower(tt.Or(tt.FCmp("fp.eq", ta, tb), tt.And(tt.FIsNaN(ta), tt.FIsNaN(tb))), types.Bool)
 	case "vsymTimeNs":
 		// vsymTimeNs(ns int64) time.Time
 		return timeVal{ns: args[0]}
